@@ -1,28 +1,10 @@
 package type2
 
 import (
-	"crypto"
-	"crypto/rand"
-	"crypto/rsa"
 	"crypto/sha256"
-	"crypto/sha512"
 )
 
 // type-2 (blind RSA) protocol harnesses for C01, C02, C03, C11.
-
-func t2Issuer() *BasicPublicIssuer {
-	key, err := rsa.GenerateKey(rand.Reader, 2048)
-	vAssume(err == nil)
-	return NewBasicPublicIssuer(key)
-}
-
-func t2VerifyToken(pk *rsa.PublicKey, enc []byte) bool {
-	if len(enc) != 2+32+32+32+256 {
-		return false
-	}
-	d := sha512.Sum384(enc[:98])
-	return rsa.VerifyPSS(pk, crypto.SHA384, d[:], enc[98:], &rsa.PSSOptions{Hash: crypto.SHA384, SaltLength: 48}) == nil
-}
 
 func VerifC01_type2_honest() {
 	vUnwind(8)
